@@ -3,6 +3,8 @@
 pub mod conv;
 pub mod dev;
 pub mod r1;
+pub mod r2;
+pub mod rel;
 pub mod obs;
 pub mod spec;
 
